@@ -209,6 +209,19 @@ CHECKS['C01'] = dict(
     technique="Coq proof of the stable-model characterisation + byte-exact compile model + exhaustive reading/ground/clingo comparison",
     design="6.C01")
 
+CHECKS['C02'] = dict(
+    text="Asp/Agg.v + Asp/AggProofs.v: values of #count/#sum/#max/#min over SETS of tuples with #inf/#sup; C02_value_over_distinct_tuples (any two "
+         "enumerations of the same set of tuples give the same value, all four functions, lists of any length) and C02_negated_symbol_complement "
+         "(also at #inf/#sup). Cnl/Aggregate.v: the seven aggregate sentence forms over a two-concept one-relation vocabulary, their READING, the "
+         "compile model (the emitted rule, using the generated operator / phrase / negation / between tables and Cnl/Comparison.v) and the semantics "
+         "of the emitted rule. Tie: the compile model must print the implementation's constraint modulo renaming of variables by first occurrence; "
+         "oracle: for every generated specification ALL 2^(n*m) interpretations are evaluated in Coq: reading = membership in clingo's answer sets of "
+         "the IMPLEMENTATION's program = semantics of the model's rule.",
+    note="Trusted: Coq kernel; clingo as external semantics; renaming variables by first occurrence preserves meaning; the reading (Cnl/Aggregate.v: "
+         "reading) is the specification; max/min of the empty set are #inf/#sup.",
+    technique="Coq proof of set-invariance of aggregate values and complement laws + compile model tied modulo alpha-renaming + exhaustive reading/rule/clingo comparison",
+    design="6.C02")
+
 NOT_YET = {}
 
 
